@@ -308,6 +308,20 @@ func Strip(v ssa.Value) ssa.Value {
 			}
 			sv := SingleStore(al)
 			if sv == nil {
+				// store-to-load forwarding inside one block: `*cell = x; y = *cell`
+				blk := x.Block()
+				if blk != nil {
+					for _, in := range blk.Instrs {
+						if in == ssa.Instruction(x) {
+							break
+						}
+						if st, ok := in.(*ssa.Store); ok && st.Addr == ssa.Value(al) {
+							sv = st.Val
+						}
+					}
+				}
+			}
+			if sv == nil {
 				return v
 			}
 			v = sv
@@ -948,6 +962,45 @@ func ClassifyErr(fn *ssa.Function, v ssa.Value, at *ssa.BasicBlock) RetClass {
 	}
 	if knownNonNil(fn, v, at) {
 		return RetFail
+	}
+	// named result spilled to memory because of a defer: `return X` stores X
+	// into the result cell, runs the defers and returns the loaded cell
+	if ld, ok := v.(*ssa.UnOp); ok && ld.Op == token.MUL {
+		if cell, ok := ld.X.(*ssa.Alloc); ok {
+			b := ld.Block()
+			var last *ssa.Store
+			for _, in := range b.Instrs {
+				if in == ssa.Instruction(ld) {
+					break
+				}
+				if st, ok := in.(*ssa.Store); ok && st.Addr == ssa.Value(cell) {
+					last = st
+				}
+			}
+			if last != nil {
+				if c2 := ClassifyErr(fn, last.Val, b); c2 != RetMaySucceed {
+					return c2
+				}
+				return RetMaySucceed
+			}
+			// bare `return` right after `if cell != nil {`
+			if len(b.Preds) == 1 {
+				p := b.Preds[0]
+				if ifi, ok := p.Instrs[len(p.Instrs)-1].(*ssa.If); ok {
+					if x, neq, ok := NilCmp(ifi.Cond); ok {
+						if l2, ok := x.(*ssa.UnOp); ok && l2.X == ssa.Value(cell) {
+							nonNilSucc := 1
+							if neq {
+								nonNilSucc = 0
+							}
+							if p.Succs[nonNilSucc] == b {
+								return RetFail
+							}
+						}
+					}
+				}
+			}
+		}
 	}
 	return RetMaySucceed
 }
